@@ -120,6 +120,18 @@ def registry(rng, srng=None):
     for mode in ('left', 'linear', 'right', 'hull'):
         add(f'postprocessing.filter_clusters[{mode}]', pp.filter_clusters, pts, knees, cl.average_linkage, 0.2, getattr(kr.ClusterRanking, mode))
     add('postprocessing.filter_clusters_corners', pp.filter_clusters_corners, pts, knees, cl.single_linkage, 0.2)
+    # hull mode on a constructed curve: a cluster whose index span holds EXACTLY ONE lower-hull point (the rarely taken branch), and one with none
+    nn = 24
+    cx = np.arange(nn, dtype=float)
+    cy = (nn - cx) ** 2 / 4.0
+    on = srng.randrange(6, 9)
+    for j in range(5, 10):
+        if j != on:
+            cy[j] += srng.choice([3.0, 5.0])
+    for j in (15, 16, 17):
+        cy[j] += 2.0
+    cpts = np.column_stack([cx, cy])
+    add('postprocessing.filter_clusters[hull,one-hull-point]', pp.filter_clusters, cpts, np.array([5, 6, 7, 8, 9, 15, 16, 17, 21]), cl.single_linkage, 0.2, kr.ClusterRanking.hull)
     add('postprocessing.add_points_even', pp.add_points_even, pts, red, kpos, removed, 0.05, 0.05, True)
     add('postprocessing.add_points_even_knees', pp.add_points_even_knees, pts, knees, 0.05, 0.05, True)
     add('postprocessing.rank_corners_triangle', pp.rank_corners_triangle, pts, knees)
@@ -207,6 +219,7 @@ def purity_case(ctx, name, f, args, kwargs):
     case = dict(function=name, args=[a.tolist() if isinstance(a, np.ndarray) else (a if isinstance(a, (int, float, list, bool)) else repr(a)) for a in args])
     base = [layout(a, 'C') for a in args]
     snap = copy.deepcopy(base)
+    core.poison_allocator(float('nan'))
     try:
         r0 = f(*base, **kwargs)
     except Exception as e:
@@ -217,6 +230,7 @@ def purity_case(ctx, name, f, args, kwargs):
         ctx.fail('predicate', 'arguments-left-unmodified', site, case, dict(before=core.jsonable(snap), after=core.jsonable(base)))
     if getattr(ctx, 'c20_calls', None) is not None and ctx.phase == 'main':
         ctx.c20_calls.append((name, f, copy.deepcopy(snap), dict(kwargs), r0))
+    core.poison_allocator(1e300)          # the first call ran over NaN-filled free blocks, the second one runs over 1e300-filled ones
     r1 = f(*[layout(a, 'C') for a in args], **kwargs)
     if not same(r0, r1):
         ctx.fail('predicate', 'identical-result-when-called-again', site, case, dict(first=core.jsonable(r0), second=core.jsonable(r1)))
